@@ -475,6 +475,11 @@ RAISE_POLICIES = [
     ('channel', {'src': 'scripted', 'pub': True, 'sub': True, 'sub_raise_in': ['on_complete']}),
     ('channel', {'src': 'scripted', 'pub': True, 'sub': True, 'pub_raise_in': ['request']}),
     ('stream_sub_raises', {'src': 'scripted'}),
+    # what the library's own metadata helpers raise when a well-behaved handler uses them on peer-supplied input / exceptions whose
+    # arguments are not text (they must still be turned into an ERROR frame)
+    ('rr', {'raise': 'lib_mime'}), ('stream', {'raise': 'lib_mime'}), ('channel', {'raise': 'lib_auth'}), ('rr', {'raise': 'lib_auth'}),
+    ('fnf', {'raise': 'lib_mime'}), ('rr', {'raise': 'lib_toolong'}), ('rr', {'raise': 'nonstr'}), ('stream', {'raise': 'noargs'}),
+    ('push', {'raise': 'lib_mime'}),
 ]
 
 
@@ -723,9 +728,11 @@ def gen_setup_client(rng, knobs=None):
     if rng.random() < 0.5:
         opts['setup_payload'] = spec(rng)
     if rng.random() < 0.4:
-        opts['data_mime'] = rng.choice(['text/plain', 'application/octet-stream', 'x/' + 'y' * rng.randint(1, 100)])
+        # (names are stated as configured: registered names with upper-case letters and application-defined ones included)
+        opts['data_mime'] = rng.choice(['text/plain', 'application/octet-stream', 'x/' + 'y' * rng.randint(1, 100), 'video/H264', 'video/VP8',
+                                        'application/vnd.Acme.Order+json'])
     if rng.random() < 0.4:
-        opts['md_mime'] = rng.choice(['message/x.rsocket.composite-metadata.v0', 'application/cbor', 'a/b'])
+        opts['md_mime'] = rng.choice(['message/x.rsocket.composite-metadata.v0', 'application/cbor', 'a/b', 'video/H265', 'X/Y'])
     if rng.random() < 0.3:
         opts['honor_lease_c'] = True
     if rng.random() < 0.3:
@@ -1018,15 +1025,19 @@ def gen_adapters(rng, knobs=None):
             pol['error_at'] = rng.randint(0, n)
         return pol
 
-    n_inter = rng.randint(1, 3)
+    n_inter = rng.randint(k.get('min_inter', 1), k.get('max_inter', 3))
     kinds = []
+    later = []
     for _ in range(n_inter):
-        kind = rng.choice(['rr', 'stream', 'stream', 'channel', 'channel', 'fnf', 'push'])
+        kind = rng.choice(k.get('kinds') or ['rr', 'stream', 'stream', 'channel', 'channel', 'fnf', 'push'])
         kinds.append(kind)
         sp = spec(rng, big=rng.random() < 0.3)
         limit = rng.choice([1, 1, 2, 3, 5, None])
         if kind == 'rr':
-            prog.append(['rr', 'c', sp, {'mode': rng.choice(['immediate', 'immediate', 'empty', 'empty', 'error']), 'resp': spec(rng, big=False),
+            mode = rng.choice(k.get('rr_modes') or ['immediate', 'immediate', 'empty', 'empty', 'error', 'later', 'later'])
+            if mode == 'later':
+                later.append(len(kinds) - 1)        # answered asynchronously - possibly after later requests arrived (overlap)
+            prog.append(['rr', 'c', sp, {'mode': mode, 'resp': spec(rng, big=False),
                                         'as_future': rng.random() < 0.5}])       # (the delegate hands its observable over inside a future)
         elif kind == 'fnf':
             prog.append(['fnf', 'c', sp])
@@ -1051,6 +1062,13 @@ def gen_adapters(rng, knobs=None):
                 prog.append(['dispose', len(kinds) - 1])
             else:
                 prog.append(['advance', rng.choice([1, 5])])
+    if later:
+        prog.append(['pump'])
+        rng.shuffle(later)
+        for ref in later:
+            prog.append(['respond', ref, spec(rng, big=False)] if rng.random() < 0.8 else ['respond_error', ref])
+            if rng.random() < 0.5:
+                prog.append(['pump'])
     for _ in range(rng.randint(0, 3)):
         if rng.random() < k.get('p_dispose', 0.25):
             prog.append(['dispose', rng.randrange(len(kinds))])
